@@ -83,6 +83,7 @@ pub struct U {
     ev_cursor: usize,
     nonce: i64,
     pub calls: u64,
+    pub primed: Vec<ScAddress>,
 }
 
 pub fn flat<T, CE: Debug, E: Debug>(
@@ -140,6 +141,7 @@ impl U {
             ev_cursor: 0,
             nonce: 1,
             calls: 0,
+            primed: Vec::new(),
         }
     }
 
@@ -484,6 +486,7 @@ impl U {
     /// are known to be valid) and then put the ledger back.
     pub fn prime<C: Register, A: ConstructorArgs>(&mut self, addr: &Address, c: C, valid_args: A) {
         let ck = self.checkpoint();
+        self.primed.push(sc_addr(addr));
         self.env.mock_all_auths_allowing_non_root_auth();
         self.env.register_at(addr, c, valid_args);
         self.env.set_auths(&[]);
